@@ -5,7 +5,7 @@
     [inp] is any calldata length / selector bytes / ABI decoder result. *)
 From Coq Require Import List ZArith Bool String.
 Import ListNotations.
-Require Import Nib.C08.Model Nib.C08.Spec Nib.C08.Proofs Nib.C08.Ref Nib.C08.Examples.
+Require Import Nib.C08.Model Nib.C08.Spec Nib.C08.Proofs Nib.C08.ProofsTx Nib.C08.Ref Nib.C08.Examples.
 Local Open Scope Z_scope.
 
 Section Statements.
@@ -205,3 +205,129 @@ Theorem C08_nested_checker_sound : forall k m cls (se : bool),
   Pb_nested k m cls se = true -> P_nested k m cls (se = true).
 Proof. exact Pb_nested_sound. Qed.
 Print Assumptions C08_nested_checker_sound.
+
+(* ------------------------------------------------------------------ SEQUENCES of calls inside one transaction *)
+
+(** One transaction = one StateDB: any list [pre] of earlier precompile calls (any precompile, call kind,
+    value, gas, calldata; succeeding, failing early, failing after partial writes) and journaled EVM state
+    changes, run from any StateDB state [x0] (any journal, any call count), then one more call.  [Ev] is the
+    EVM side of the state, [Ms] the stores of the other modules (bank, wasm, …) a precompile body writes
+    through the cache multistore; [body] may write both and fail afterwards. *)
+Section TxStatements.
+  Variables Ev Ms : Type.
+  Variable body : mid -> list arg -> tst Ev Ms -> Z -> bres (tst Ev Ms).
+  Variable after_mint : mid -> list arg -> tst Ev Ms -> Z -> bres (tst Ev Ms).
+  Variable evm_touch : mid -> list arg -> tst Ev Ms -> bool.
+  Variable transfer_ev : Ev -> Z -> Ev.
+  Notation xcall := (call_x Ev Ms body after_mint evm_touch transfer_ev).
+  Notation xrun := (tx_run Ev Ms body after_mint evm_touch transfer_ev).
+
+  (** A failed call leaves no state change behind wherever it stands in the transaction: with the multistore
+      snapshot journaled by EVERY call ([f_snap_each_call]), both sides of the state and the journal itself are
+      exactly as before the call and all forwarded gas is consumed — whatever the journal held (a precompile
+      snapshot of the previous call on top, EVM entries, nothing) and whatever the body wrote before failing. *)
+  Theorem C08_failed_call_leaves_no_state_in_tx : forall F pre x0 p k value gas inp,
+    f_snap_each_call F = true ->
+    let x := xrun F pre x0 in
+    is_err (xr_out (xcall F p k value gas inp x)) = true ->
+    st_of Ev Ms (xr_x (xcall F p k value gas inp x)) = st_of Ev Ms x /\
+    x_j (xr_x (xcall F p k value gas inp x)) = x_j x /\
+    xr_left (xcall F p k value gas inp x) = 0.
+  Proof. exact (tx_failed_call_leaves_no_state Ev Ms body after_mint evm_touch transfer_ev). Qed.
+
+  (** A call made after any history IS the single call of the theorems above on the state the history left
+      (outcome, gas handed back, state), as long as the StateDB's budget of precompile calls is not used up:
+      every theorem about one call holds of every call of a sequence. *)
+  Theorem C08_call_in_tx_is_single_call : forall F pre x0 p k value gas inp,
+    f_snap_each_call F = true ->
+    let x := xrun F pre x0 in
+    (reaches_start F (pc_of F p) (cap4_of k inp) gas inp = false \/ x_cnt x < f_max_calls F) ->
+    let e := evm_call (tst Ev Ms) body after_mint (transfer_t Ev Ms transfer_ev) F p k value gas inp (st_of Ev Ms x) in
+    xr_out (xcall F p k value gas inp x) = r_out e /\
+    xr_left (xcall F p k value gas inp x) = r_left e /\
+    st_of Ev Ms (xr_x (xcall F p k value gas inp x)) = r_st e.
+  Proof. intros F pre x0 p k value gas inp SE x. exact (call_x_refines Ev Ms body after_mint evm_touch transfer_ev F p k value gas inp x SE). Qed.
+
+  (** Beyond that budget the call fails closed like any other bad call. *)
+  Theorem C08_call_budget_fails_closed : forall F pre x0 p k value gas inp,
+    f_snap_each_call F = true ->
+    let x := xrun F pre x0 in
+    reaches_start F (pc_of F p) (cap4_of k inp) gas inp = true -> f_max_calls F <= x_cnt x ->
+    xr_out (xcall F p k value gas inp x) = Err /\
+    st_of Ev Ms (xr_x (xcall F p k value gas inp x)) = st_of Ev Ms x /\
+    xr_left (xcall F p k value gas inp x) = 0.
+  Proof. intros F pre x0 p k value gas inp SE x. exact (call_x_over_limit Ev Ms body after_mint evm_touch transfer_ev F p k value gas inp x SE). Qed.
+
+  (** The whole property predicate — the one [Pb] evaluates on the last call of an implementation trace —
+      holds of a call made after any history, budget used up or not. *)
+  Theorem C08_tx_call_satisfies_property : forall F pre x0 p k value gas inp,
+    guards_ok F = true -> panic_ok F = true -> f_direct_ro F = true -> f_snap_each_call F = true ->
+    query_bodies_readonly (tst Ev Ms) body after_mint -> input_wf inp = true -> 0 <= gas ->
+    let x := xrun F pre x0 in
+    let r := xcall F p k value gas inp x in
+    P k value gas (selected (pc_of F p) inp) (xr_out r) (xr_left r)
+      (st_of Ev Ms (xr_x r) = st_of Ev Ms x)
+      (st_of Ev Ms (xr_x r) = st_of Ev Ms x \/ st_of Ev Ms (xr_x r) = transfer_t Ev Ms transfer_ev (st_of Ev Ms x) value).
+  Proof.
+    intros F pre x0 p k value gas inp GO PO DR SE QB W G x.
+    exact (call_x_satisfies_P Ev Ms body after_mint evm_touch transfer_ev F p k value gas inp x GO PO DR SE QB W G).
+  Qed.
+
+  Theorem C08_tx_nested_static_if_inherited : forall F pre x0 p k gas inp,
+    guards_ok F = true -> panic_ok F = true -> f_call_inherits_static F = true -> f_snap_each_call F = true ->
+    query_bodies_readonly (tst Ev Ms) body after_mint -> input_wf inp = true ->
+    let x := xrun F pre x0 in
+    let r := xcall F p k 0 gas inp x in
+    P_nested k (selected (pc_of F p) inp) (xr_out r) (st_of Ev Ms (xr_x r) = st_of Ev Ms x).
+  Proof.
+    intros F pre x0 p k gas inp GO PO CI SE QB W x.
+    exact (call_x_satisfies_P_nested Ev Ms body after_mint evm_touch transfer_ev F p k gas inp x GO PO CI SE QB W).
+  Qed.
+
+  (** A failed call is invisible to the REST of its transaction as well: leaving the failed calls out of a
+      transaction changes nothing of what the transaction — its later calls included — does to the state
+      (clause [P_tx], observed on implementation traces as [c_drop_eq]).  Within the StateDB's budget of
+      precompile calls, which failed calls use up too. *)
+  Theorem C08_failed_calls_invisible_in_tx : forall F ops x0,
+    f_snap_each_call F = true ->
+    x_cnt x0 + Z.of_nat (List.length ops) <= f_max_calls F ->
+    P_tx (st_of Ev Ms (xrun F ops x0) =
+          st_of Ev Ms (tx_run_drop Ev Ms body after_mint evm_touch transfer_ev F ops x0)).
+  Proof.
+    intros F ops x0 SE B.
+    exact (tx_failed_calls_invisible Ev Ms body after_mint evm_touch transfer_ev F ops x0 x0 SE eq_refl B B).
+  Qed.
+End TxStatements.
+Print Assumptions C08_failed_calls_invisible_in_tx.
+Print Assumptions C08_failed_call_leaves_no_state_in_tx.
+Print Assumptions C08_call_in_tx_is_single_call.
+Print Assumptions C08_call_budget_fails_closed.
+Print Assumptions C08_tx_call_satisfies_property.
+Print Assumptions C08_tx_nested_static_if_inherited.
+
+(** Seeded change "precompile snapshot coalesced" (SavePrecompileCalledJournalChange keeps the previous
+    snapshot when the newest journal entry already is one): the faithful model of that variant violates
+    "a bad call leaves no state change behind" — a successful query, then directly a state-changing call
+    that fails after its first write. *)
+Theorem C08_failed_call_leaves_state_refuted_with_coalesced_snapshots :
+  exists pre p k gas inp,
+    let F := with_snap_each reference_facts false in
+    let x := tx_run Z Z partial_body partial_after_mint sample_touch sample_transfer_ev F pre x0 in
+    let r := call_x Z Z partial_body partial_after_mint sample_touch sample_transfer_ev F p k 0 gas inp x in
+    is_err (xr_out r) = true /\ x_ms (xr_x r) <> x_ms x.
+Proof. exact failed_call_leaves_state_refuted_coalesced. Qed.
+Print Assumptions C08_failed_call_leaves_state_refuted_with_coalesced_snapshots.
+
+(** … and the rest of that transaction sees it: query, failing call, query commits another state than query, query. *)
+Theorem C08_failed_calls_visible_refuted_with_coalesced_snapshots :
+  exists ops,
+    let F := with_snap_each reference_facts false in
+    x_cnt x0 + Z.of_nat (List.length ops) <= f_max_calls F /\
+    ~ P_tx (st_of Z Z (tx_run Z Z partial_body partial_after_mint sample_touch sample_transfer_ev F ops x0) =
+            st_of Z Z (tx_run_drop Z Z partial_body partial_after_mint sample_touch sample_transfer_ev F ops x0)).
+Proof. exact failed_calls_visible_refuted_coalesced. Qed.
+Print Assumptions C08_failed_calls_visible_refuted_with_coalesced_snapshots.
+
+Theorem C08_tx_checker_sound : forall b, Pb_tx b = true -> P_tx (b = true).
+Proof. exact Pb_tx_sound. Qed.
+Print Assumptions C08_tx_checker_sound.
